@@ -171,6 +171,8 @@ def end_c40(ctx):
             cc = T.canon(T.callee_of(c))
             last = cc.split("::")[-1]
             if cc.startswith("arrayvec::") or "ArrayVec" in cc:
+                if last == "new" and not c["args"]:
+                    return []
                 v = folder.fold(c["args"][0]) if c["args"] else None
                 if last == "push" and isinstance(v, list):
                     v.append(folder.fold(c["args"][1]))
@@ -299,7 +301,7 @@ def end_edifact(ctx):
     f = ctx.facts()
     b = f.thir.get(EDI_END)
     need(b, r, EDI_END)
-    need(not any(n.get("k") == "Loop" for n in T.walk(b["body"])), r, EDI_END, "(loop-free)")
+    # (loops over the at most four pending / unread characters are unrolled by the folder)
     pn = [p_["pat"]["name"] for p_ in b["params"] if p_.get("pat", {}).get("k") == "Bind"]
     need(len(pn) == 2, r, EDI_END, "(parameters ctx, symbols)")
     LEN = 10
@@ -320,6 +322,8 @@ def end_edifact(ctx):
             cc = T.canon(T.callee_of(c))
             last = cc.split("::")[-1]
             if cc.startswith("arrayvec::") or "ArrayVec" in cc:
+                if last == "new" and not c["args"]:
+                    return []
                 v = folder.fold(c["args"][0]) if c["args"] else None
                 if last == "push" and isinstance(v, list):
                     v.append(folder.fold(c["args"][1]))
